@@ -15,6 +15,8 @@ import (
 	"github.com/apache/skywalking-banyandb/banyand/measure"
 	"github.com/apache/skywalking-banyandb/banyand/queue"
 	"github.com/apache/skywalking-banyandb/banyand/queue/sub"
+	"github.com/apache/skywalking-banyandb/banyand/stream"
+	"github.com/apache/skywalking-banyandb/banyand/trace"
 	"github.com/apache/skywalking-banyandb/pkg/bus"
 )
 
@@ -175,9 +177,53 @@ func sameDigest(a, b map[string]string) bool {
 	return true
 }
 
-// msr.<fault> reorder maxBuf maxGap chunkSize seed series points p q
+type realNode interface {
+	Handler() queue.ChunkedSyncHandler
+	Root() string
+	Close() error
+	Snapshot() (int, uint64)
+}
+
+type realPart interface {
+	StreamingPart(group, topic string) queue.StreamingPartData
+	PartDir() string
+	TotalCount() uint64
+	Close()
+}
+
+// engineOf returns, for a real-handler mode, the sync topic, a data node and a sender part builder.
+func engineOf(mode string) (topic bus.Topic, open func(root string) (realNode, error),
+	build func(root string, id uint64, seed int64, series, points int) realPart, ok bool,
+) {
+	switch mode {
+	case "msr":
+		return data.TopicMeasurePartSync,
+			func(root string) (realNode, error) { return measure.VerifC17OpenNode(root, c17Group) },
+			func(root string, id uint64, seed int64, series, points int) realPart {
+				return measure.VerifC17BuildPart(root, id, seed, series, points, c17MinTS)
+			}, true
+	case "str":
+		return data.TopicStreamPartSync,
+			func(root string) (realNode, error) { return stream.VerifC17OpenNode(root, c17Group) },
+			func(root string, id uint64, seed int64, series, points int) realPart {
+				return stream.VerifC17BuildPart(root, id, seed, series, points, c17MinTS)
+			}, true
+	case "trc":
+		return data.TopicTracePartSync,
+			func(root string) (realNode, error) { return trace.VerifC17OpenNode(root, c17Group) },
+			func(root string, id uint64, seed int64, series, points int) realPart {
+				return trace.VerifC17BuildPart(root, id, seed, series, points, c17MinTS)
+			}, true
+	}
+	return bus.Topic{}, nil, nil, false
+}
+
+// <msr|str|trc>.<fault> reorder maxBuf maxGap chunkSize seed series points p q
+// Real measure / stream / trace ChunkedSyncHandler on a fresh data-node TSDB; the sender part is built by the
+// engine's real memPart encoder and streamed with its real createPartFileReaders.
 func handleReal(mode string, f []string) string {
-	if mode != "msr" || len(f) != 10 {
+	topicT, open, build, ok := engineOf(mode)
+	if !ok || len(f) != 10 {
 		return "bad-op"
 	}
 	_, fault, _ := strings.Cut(f[0], ".")
@@ -187,29 +233,47 @@ func handleReal(mode string, f []string) string {
 	dir := scratchDir()
 	defer os.RemoveAll(dir)
 
-	topic := data.TopicMeasurePartSync.String()
+	topic := topicT.String()
 	senderRoot := filepath.Join(dir, "liaison")
 	if err := os.MkdirAll(senderRoot, 0o755); err != nil {
 		panic(err)
 	}
-	sp := measure.VerifC17BuildPart(senderRoot, 7, int64(seed), series, points, c17MinTS)
+	sp := build(senderRoot, 7, int64(seed), series, points)
 	defer sp.Close()
-	senderFiles := dirDigest(sp.Dir)
+	senderFiles := dirDigest(sp.PartDir())
 	rows := sp.TotalCount()
 
 	chunks, completion, err := referenceChunks([]queue.StreamingPartData{sp.StreamingPart(c17Group, topic)}, uint32(chunkSize), topic)
 	if err != nil {
 		return "SENDERR " + err.Error()
 	}
-	senderAfter := dirDigest(sp.Dir)
+	senderAfter := dirDigest(sp.PartDir())
+	// how many of the transferred files are spread over at least two chunks
+	inChunks := map[string]map[uint32]bool{}
+	for _, c := range chunks {
+		for _, pi := range c.PartsInfo {
+			for _, fi := range pi.Files {
+				if inChunks[fi.Name] == nil {
+					inChunks[fi.Name] = map[uint32]bool{}
+				}
+				inChunks[fi.Name][c.ChunkIndex] = true
+			}
+		}
+	}
+	split := 0
+	for _, m := range inChunks {
+		if len(m) >= 2 {
+			split++
+		}
+	}
 
-	node, err := measure.VerifC17OpenNode(filepath.Join(dir, "data"), c17Group)
+	node, err := open(filepath.Join(dir, "data"))
 	if err != nil {
 		return "OPENERR " + err.Error()
 	}
 	defer node.Close()
 
-	srv := sub.VerifC17NewServer(reorder, uint32(maxBuf), uint32(maxGap), map[bus.Topic]queue.ChunkedSyncHandler{data.TopicMeasurePartSync: node.Handler()})
+	srv := sub.VerifC17NewServer(reorder, uint32(maxBuf), uint32(maxGap), map[bus.Topic]queue.ChunkedSyncHandler{topicT: node.Handler()})
 	script := faultScript(fault, len(chunks), p, q)
 	st := &scriptServer{in: buildScript(script, chunks, completion)}
 	ret := "ok"
@@ -219,18 +283,39 @@ func handleReal(mode string, f []string) string {
 
 	// what the receiver holds now
 	exact, bad := 0, 0
+	var diff []string
 	pds := partDirs(node.Root())
 	for _, pd := range pds {
-		if sameDigest(dirDigest(pd), senderFiles) {
+		got := dirDigest(pd)
+		if sameDigest(got, senderFiles) {
 			exact++
 		} else {
 			bad++
+			for k, v := range senderFiles {
+				if got[k] != v {
+					diff = append(diff, k)
+				}
+			}
+			for k := range got {
+				if _, has := senderFiles[k]; !has {
+					diff = append(diff, "+"+k)
+				}
+			}
 		}
 	}
-	snap := node.SnapshotParts()
-	return fmt.Sprintf("n=%d files=%d acks=%s ret=%s res=%s partdirs=%d exact=%d bad=%d snap=%d rows=%d/%d senderintact=%s",
-		len(chunks), len(senderFiles), ackString(st.resps), ret, resultString(st.resps), len(pds), exact, bad, len(snap),
-		node.VerifC17RowCount(), rows, drv01(sameDigest(senderFiles, senderAfter)))
+	sort.Strings(diff)
+	df := "-"
+	if len(diff) > 0 {
+		df = strings.Join(diff, ",")
+	}
+	snapParts, snapRows := node.Snapshot()
+	acks := ackString(st.resps)
+	if len(acks) > 40 {
+		acks = fmt.Sprintf("%s..%s(%d)", acks[:8], acks[len(acks)-8:], len(acks))
+	}
+	return fmt.Sprintf("n=%d files=%d split=%d/%d acks=%s complete=%s ret=%s res=%s partdirs=%d exact=%d bad=%d diff=%s snap=%d rows=%d/%d senderintact=%s",
+		len(chunks), len(senderFiles), split, len(inChunks), acks, drv01(strings.Contains(ackString(st.resps), "5")), ret, resultString(st.resps),
+		len(pds), exact, bad, df, snapParts, snapRows, rows, drv01(sameDigest(senderFiles, senderAfter)))
 }
 
 func drv01(b bool) string {
